@@ -283,8 +283,15 @@ class Impl:
         self.outs: list[str] = [show_world(self.gw)]
         self.now_alt: dict[int, tuple[int, int]] = {}
         self.raw: list[Any] = [None]  # per op: raw record for oracles
+        self._agen = None
 
     def close(self) -> None:
+        if self._agen is not None:
+            try:
+                self.loop.run_until_complete(self._agen.aclose())
+            except Exception:  # noqa: BLE001
+                pass
+            self._agen = None
         self.loop.close()
 
     def _record(self, op: str, out: str, raw: Any = None) -> None:
@@ -302,21 +309,20 @@ class Impl:
         self.tr.writes = []
         before = snapshot(self.gw)
 
-        async def one():
-            agen = self.gw.listen()
-            try:
-                return await agen.__anext__()
-            finally:
-                await agen.aclose()
-
+        # one listen() generator is kept across steps, as an application's
+        # `async for message in gateway.listen()` does; an exception finishes it,
+        # so the next step starts a new one
+        if self._agen is None:
+            self._agen = self.gw.listen()
         exc = None
         msg = None
         try:
-            msg = self.loop.run_until_complete(one())
+            msg = self.loop.run_until_complete(self._agen.__anext__())
             outcome = "Y " + show_msg(msg)
         except Exception as e:  # noqa: BLE001
             exc = e
             outcome = "E " + show_exn(e)
+            self._agen = None
         t1 = local_now()
         out = outcome + show_writes(self.tr.writes) + " || " + show_world(self.gw)
         raw = {
